@@ -4,7 +4,7 @@
    inductives.  Run from this directory: coqc -Q ../theories Goag Extract.v *)
 Require Extraction.
 Require Import ExtrOcamlBasic.
-From Goag Require Import Base.Str Model.OutDir Model.GoLit Model.Router Model.Serve Model.Params Model.Json Model.OneOf Model.Client Model.Response Model.RespTypes Model.Naming Model.NilSafety Gen.HoleSites Model.Holes Spec.RouterSpec Spec.ServeSpec Spec.JsonSpec.
+From Goag Require Import Base.Str Model.OutDir Model.GoLit Model.Router Model.Serve Model.Params Model.Json Model.OneOf Model.Client Model.Response Model.RespTypes Model.Naming Model.NilSafety Gen.HoleSites Model.Holes Model.UrlEscape Spec.RouterSpec Spec.ServeSpec Spec.JsonSpec.
 
 (* stable names for the driver, whatever clashes extraction resolves by renaming *)
 Definition json_enc := Json.enc.
@@ -17,10 +17,17 @@ Definition resp_write := Response.write.
 Definition resp_decode := Response.client_decode.
 Definition resp_select := Response.select.
 Definition holes_comment := Holes.comment.
+Definition url_path_escape := UrlEscape.path_escape.
+Definition url_query_escape := UrlEscape.query_escape.
+Definition url_unescape := UrlEscape.unescape.
+Definition url_encode_query := UrlEscape.encode_query.
+Definition url_parse_query := UrlEscape.parse_query.
+Definition url_sort_pairs := UrlEscape.sort_pairs.
+Definition client_wire_url := Client.client_wire.
 Definition holes_ctx_after (s : Str.str) : HoleSites.hole_ctx := Holes.ctx_of (fst (Holes.lex Holes.LCode None s)).
 
 Extraction Language OCaml.
 Extraction "model.ml"
   OutDir.run_history OutDir.observe OutDir.spec_dir OutDir.empty_dir OutDir.write
   GoLit.encode GoLit.go_eval GoLit.embeddable
-  Serve.serve Serve.gen_accepts Params.parse_request json_enc json_dec json_keep oneof_enc oneof_dec oneof_single JsonSpec.validates Client.client_request resp_write resp_decode resp_select RespTypes.implementers Naming.public_field_name holes_comment holes_ctx_after NilSafety.gen_front NilSafety.loader_inv ServeSpec.serve_spec RouterSpec.match_request Router.route_root Serve.gen_tree.
+  Serve.serve Serve.gen_accepts Params.parse_request json_enc json_dec json_keep oneof_enc oneof_dec oneof_single JsonSpec.validates Client.client_request resp_write resp_decode resp_select RespTypes.implementers Naming.public_field_name holes_comment holes_ctx_after url_path_escape url_query_escape url_unescape url_encode_query url_parse_query url_sort_pairs client_wire_url NilSafety.gen_front NilSafety.loader_inv ServeSpec.serve_spec RouterSpec.match_request Router.route_root Serve.gen_tree.
